@@ -227,12 +227,20 @@ def _run_positional(target, blobs):
     placed = {}
     pos = 0
     k = 0
+    last_bad = None
     while pos < total:
         if pos in bad:
             bad.discard(pos)
+            last_bad = pos
             pos += skip
             continue
         if k >= len(outs):
+            if last_bad is not None and not bad:
+                # llvm-mc -triple=m68k gives up on the whole rest of the stream after some invalid
+                # encodings (eor.l %d5, (62,%pc)): everything before the input holding that position
+                # is decoded, that input is not, the inputs after it are decoded again
+                j = max(i for i, a in enumerate(starts) if a <= last_bad)
+                raise _Lost(j, _tile_inputs(starts[:j], blobs[:j], placed))
             raise _Inconsistent("outputs exhausted")
         text, enc = outs[k]
         k += 1
@@ -246,6 +254,10 @@ def _run_positional(target, blobs):
         pos += len(enc)
     if pos != total or k != len(outs) or bad:
         raise _Inconsistent("stream not tiled")
+    return _tile_inputs(starts, blobs, placed)
+
+
+def _tile_inputs(starts, blobs, placed):
     results = []
     for a, b in zip(starts, blobs):
         end = a + len(b)
@@ -256,6 +268,13 @@ def _run_positional(target, blobs):
             q += placed[q][1]
         results.append(res if (res and q == end) else None)
     return results
+
+
+class _Lost(Exception):
+    def __init__(self, index, partial):
+        Exception.__init__(self, "stream lost at input %d" % index)
+        self.index = index
+        self.partial = partial
 
 
 def _msp430_crasher(blob):
@@ -288,6 +307,10 @@ def _decode_positional(target, data):
         return res
     try:
         return _run_positional(target, data)
+    except _Lost as e:
+        CRASHES[target + "/stream lost after an invalid input"] = CRASHES.get(target + "/stream lost after an invalid input", 0) + 1
+        rest = data[e.index + 1 :]
+        return e.partial + [None] + (_decode_positional(target, rest) if rest else [])
     except (_Crashed, _Inconsistent) as e:
         if len(data) == 1:
             key = target if isinstance(e, _Crashed) else target + "/inconsistent"
